@@ -8,6 +8,7 @@ the reference interpreter (harness/refeval.py): outcome class, value (z3 validit
 (exact), and the final contents of the Context (entry by entry, z3 validity).
 """
 import json
+import os
 import z3
 
 from values import *
@@ -55,7 +56,76 @@ def infix_table_with_hi():
     return t
 
 
-def run_template(it, px, toks, vars_, funcs, fault_at=0, fault_kind='err', reenter=None, use_globals=False, followup=None, const_ret=None, repeat=0, ref_reenter=None):
+# ------------------------------------------------------------------ leak acceleration
+# A failing evaluation that leaves an integer in a static / thread-local cell changed by the same non-zero amount d each
+# time (a depth counter not given back, a retry budget, ...) reaches, after k more failures, the state "cell = v + k*d".
+# Instead of repeating the evaluation k times, the cell is set to v + k*d with k a solver variable (0 <= k <= ACCEL_MAX)
+# and the follow-up evaluation is explored under it: the solver finds the k at which the follow-up breaks, if any.  The
+# witness is replayed natively with that many real repetitions before it is reported.
+ACCEL_MAX = 4096
+
+
+def _int_leaves(v, path, out, depth=0):
+    if depth > 5:
+        return
+    if isinstance(v, bool):
+        return
+    if isinstance(v, int):
+        out[path] = v
+        return
+    if isinstance(v, (Agg, Enum)):
+        for i, x in enumerate(v.f):
+            _int_leaves(x, path + (i,), out, depth + 1)
+    elif isinstance(v, OnceV) and v.state == 2:
+        _int_leaves(v.val, path + ('once',), out, depth + 1)       # a lazily initialised thread_local! / once cell
+
+
+def _replace_leaf(v, path, new):
+    if not path:
+        return new
+    if path[0] == 'once':
+        return OnceV(v.state, _replace_leaf(v.val, path[1:], new), v.owner)
+    f = list(v.f)
+    f[path[0]] = _replace_leaf(f[path[0]], path[1:], new)
+    if isinstance(v, Agg):
+        return Agg(v.ty, f)
+    return Enum(v.ty, v.idx, v.name, f)
+
+
+def static_ints(it):
+    out = {}
+    for name, cell in it.statics.items():
+        leaves = {}
+        _int_leaves(cell.v, (), leaves)
+        for pth, val in leaves.items():
+            out[(name, pth)] = val
+    return out
+
+
+def accelerate_leaks(it, px, s0, s1, s2):
+    """-> (k, [description]) after making every linearly leaking integer cell symbolic, or (None, [])"""
+    leaks = []
+    for key, v2 in s2.items():
+        if key in s1:
+            d = v2 - s1[key]
+            # (a cell the first failing evaluation created lazily has no value before it)
+            if d != 0 and (key not in s0 or s1[key] - s0[key] == d):
+                leaks.append((key, v2, d))
+    if not leaks:
+        return None, []
+    k = px.bv('leak_k', 64)
+    px.add(z3.ULE(k, z3.BitVecVal(ACCEL_MAX, 64)))
+    px.get_model()
+    desc = []
+    for (name, pth), v2, d in leaks:
+        cell = it.statics[name]
+        sym = z3.BitVecVal(v2 % (1 << 64), 64) + k * z3.BitVecVal(d % (1 << 64), 64)
+        cell.v = _replace_leaf(cell.v, pth, sym)
+        desc.append('%s%s: %+d per failing evaluation' % (name, list(pth), d))
+    return k, desc
+
+
+def run_template(it, px, toks, vars_, funcs, fault_at=0, fault_kind='err', reenter=None, use_globals=False, followup=None, const_ret=None, repeat=0, ref_reenter=None, accelerate=False):
     """vars_: {name: Value}; funcs: {name: Value returned by the context function};
     fault_at: the k-th handler invocation (all kinds, 1-based) fails with fault_kind (0: none);
     reenter(it, ctx_cell, name): action performed inside every handler before it returns;
@@ -100,6 +170,8 @@ def run_template(it, px, toks, vars_, funcs, fault_at=0, fault_kind='err', reent
         postfix = tuple(postfix) + ('---',)
     ctx = api.new_context(it, binds)
     box['c'] = ctx
+    accel = accelerate and fault_at and not repeat
+    s0 = static_ints(it) if accel else None
     got = api.execute(it, text, ctx)
     log_first = list(log_m)
     # the same evaluation again `repeat` times on the same context and thread (the injected fault recurs each time):
@@ -107,6 +179,17 @@ def run_template(it, px, toks, vars_, funcs, fault_at=0, fault_kind='err', reent
     for _ in range(repeat):
         cnt_m['n'] = 0
         api.execute(it, text, ctx)
+    accel_k, accel_cells = None, []
+    if accel:
+        s1 = static_ints(it)
+        if os.environ.get('VERIF_DEBUG_ACCEL'):
+            import sys
+            print('ACCEL', fault_kind, [(k, s0.get(k), v) for k, v in s1.items()][:8], [(n, repr(c.v)[:80]) for n, c in it.statics.items() if 'DEPTH' in n], file=sys.stderr)
+        if any(s0.get(key) != v for key, v in s1.items()):
+            # second failing evaluation, on a fresh context with the same bindings (the first one may have rebound names)
+            cnt_m['n'] = 0
+            api.execute(it, text, api.new_context(it, binds))
+            accel_k, accel_cells = accelerate_leaks(it, px, s0, s1, static_ints(it))
     del log_m[len(log_first):]
     follow = None
     if followup is not None:
@@ -152,7 +235,7 @@ def run_template(it, px, toks, vars_, funcs, fault_at=0, fault_kind='err', reent
     except re_.Outside as e:
         want_kind, want = 'outside', str(e)
     return {'text': text, 'got': got, 'want_kind': want_kind, 'want': want, 'log_m': log_m, 'log_r': env.log, 'ctx': ctx, 'env': env,
-            'follow': follow}
+            'follow': follow, 'accel_k': accel_k, 'accel_cells': accel_cells}
 
 
 def compare(px, res, check_ctx=True):
